@@ -90,7 +90,7 @@ def yaml_load(stream):
     except ValueError as ex:  # scalar constructors, e.g. int("9"*5000), float(".")
         raise yaml.YAMLError(str(ex)) from ex
     if isinstance(value, dict) and value and all(v is None for v in value.values()):
-        if len(value) == 1 and stream.strip() == next(iter(value.keys())) + ":":
+        if len(value) == 1 and stream.strip() == str(next(iter(value.keys()))) + ":":
             value = stream
         else:
             keys = set(stream.strip(" {}").replace(" ", "").split(","))
